@@ -193,6 +193,34 @@ class OpaqueV(V):
         return f"Opaque({self.tag})"
 
 
+class StubV(V):
+    """A hand-made stand-in for an external object (e.g. a datetime): attribute -> abstract value; methods given as
+    python callables (interp, args, kwargs, state, node) -> [Out]."""
+
+    def __init__(self, tag, attrs=None, methods=None):
+        self.tag = tag
+        self.attrs = attrs or {}
+        self.methods = methods or {}
+
+    def __repr__(self):
+        return f"Stub<{self.tag}>"
+
+
+class RatioV(V):
+    """num / den with an integer linear numerator and a positive constant denominator (result of int / const)."""
+
+    def __init__(self, num: LinExpr, den: int):
+        self.num, self.den = num, den
+
+    def __repr__(self):
+        return f"Ratio({self.num!r}/{self.den})"
+
+
+class SuperV(V):
+    def __init__(self, cls, obj):
+        self.cls, self.obj = cls, obj
+
+
 class RangeV(V):
     def __init__(self, lo, hi):
         self.lo, self.hi = lo, hi
@@ -247,7 +275,15 @@ class State:
         st.sym_info = dict(self.sym_info)
         st.imprecise = list(self.imprecise)
         st._model = getattr(self, "_model", None)
+        if "nonneg_facts" in self.__dict__:
+            st.nonneg_facts = {k: list(v) for k, v in self.nonneg_facts.items()}
+            st._lemmas_done = set(self.__dict__.get("_lemmas_done", ()))
         return st
+
+    def nonneg(self, sym_name: str, f: LinExpr):
+        """Register the fact f >= 0 (about symbol sym_name) for use in product lemmas, and assume it."""
+        self.__dict__.setdefault("nonneg_facts", {}).setdefault(sym_name, []).append(f)
+        self.add(ge(f, 0))
 
     # heap helpers
     def alloc(self, entry: dict) -> int:
@@ -824,6 +860,11 @@ class Interp:
         return None
 
     def binop(self, a: V, op, b: V, st: State, node) -> list[Out]:
+        # a bytearray operand of + / * behaves like bytes of its current content (the result is a new object)
+        if isinstance(a, BufV):
+            a = SeqV("bytes", st.heap[a.oid]["length"], list(st.heap[a.oid]["pieces"]))
+        if isinstance(b, BufV):
+            b = SeqV("bytes", st.heap[b.oid]["length"], list(st.heap[b.oid]["pieces"]))
         # a symbolic boolean used as a number: case split into 0 / 1
         for which, x in (("a", a), ("b", b)):
             if isinstance(x, BoolV) and x.f[0] not in ("t", "f") and isinstance(op, (ast.Add, ast.Sub, ast.Mult)):
@@ -863,6 +904,8 @@ class Interp:
             if isinstance(op, ast.Sub):
                 return self.val(st, IntV(ai - bi))
             if isinstance(op, ast.Mult):
+                if not ai.is_const() and not bi.is_const():
+                    self.product_lemmas(st, ai, bi)
                 return self.val(st, IntV(ai * bi))
             if isinstance(op, ast.Pow) and ai.is_const() and bi.is_const() and 0 <= bi.const <= 64:
                 return self.val(st, IntV(int(ai.const) ** int(bi.const)))
@@ -879,6 +922,8 @@ class Interp:
                     return []
                 return self.val(st, IntV(r if isinstance(op, ast.Mod) else q))
             if isinstance(op, ast.Div):
+                if bi.is_const() and bi.const > 0 and bi.const.denominator == 1:
+                    return self.val(st, RatioV(ai, int(bi.const)))
                 return self.val(st, FloatV("div"))
             if isinstance(op, (ast.LShift,)) and bi.is_const() and 0 <= bi.const <= 64:
                 return self.val(st, IntV(ai * (2 ** int(bi.const))))
@@ -891,6 +936,24 @@ class Interp:
         if isinstance(a, DictV) and isinstance(b, DictV) and isinstance(op, ast.BitOr):
             return self.val(st, st.new_dict({**st.items(a), **st.items(b)}))
         self.unsupported(node, f"binary operation on {a!r}, {b!r}")
+
+    def product_lemmas(self, st: State, a: LinExpr, b: LinExpr):
+        """Monotonicity of multiplication: for registered facts f >= 0 about a symbol of `a` and g >= 0 about a symbol
+        of `b`, f*g >= 0 (added once; the non-linear monomials are ordinary variables for the linear procedure)."""
+        facts = st.__dict__.setdefault("nonneg_facts", {})
+        done = st.__dict__.setdefault("_lemmas_done", set())
+        for sa in sorted(a.symbols()):
+            for sb in sorted(b.symbols()):
+                for f in facts.get(sa, []):
+                    for g in facts.get(sb, []):
+                        key = (repr(f), repr(g))
+                        if key in done:
+                            continue
+                        done.add(key)
+                        prod = f * g
+                        if all(len(m) <= 2 for m in prod.terms):
+                            st.cons.append(ge(prod, 0))
+        st._model = None
 
     def e_Attribute(self, e, st):
         return self.bind(self.eval(e.value, st), lambda v, s: self.getattr(v, e.attr, s, e))
@@ -972,6 +1035,23 @@ class Interp:
             return self.val(st, OpaqueV(f"{v.tag}.{attr}"))
         if isinstance(v, (SeqV, ListV, TupleV, DictV, BufV)):
             return self.val(st, _BoundBuiltin(v, attr))
+        if isinstance(v, StubV):
+            if attr in v.attrs:
+                return self.val(st, v.attrs[attr])
+            if attr in v.methods:
+                return self.val(st, _BoundBuiltin(v, attr))
+            return self.raise_(st, "AttributeError", node)
+        if isinstance(v, SuperV):
+            start = v.obj.cls if isinstance(v.obj, ObjV) else (v.obj.cls if isinstance(v.obj, ClassV) else v.cls)
+            mro = start.mro()
+            idx = mro.index(v.cls) if v.cls in mro else 0
+            for c in mro[idx + 1:]:
+                if attr in c.methods:
+                    mth = c.methods[attr]
+                    if mth.kind == "staticmethod":
+                        return self.val(st, FuncV(mth))
+                    return self.val(st, FuncV(mth, v.obj))
+            return self.val(st, ExtV("object." + attr))
         if isinstance(v, _FileV):
             return self.val(st, _BoundBuiltin(v, attr))
         if isinstance(v, SliceObjV) and attr in ("start", "stop"):
@@ -1316,6 +1396,11 @@ class Interp:
                 n = st.new_sym("strlen", f"len(str({_tag(v)}))")
                 st.add(ge(n, 1 if isinstance(v, IntV) else 0))
                 return self.val(st, SeqV("str", n, [("str-of", n, _tag(v))]))
+            if short == "super" and not args and self.cur_func and self.cur_func[-1].cls is not None:
+                f = self.cur_func[-1]
+                pn = f.param_names
+                selfv = st.env.get(pn[0]) if pn else None
+                return self.val(st, SuperV(f.cls, selfv))
             if short == "range":
                 ints = [self.as_int(a) for a in args]
                 if any(i is None for i in ints):
@@ -1345,11 +1430,15 @@ class Interp:
                 s1.add(eq(n, q * c + r))
                 s1.add(ge(r, 0))
                 s1.add(le(r, c - 1))
+                qn, rn = next(iter(q.symbols())), next(iter(r.symbols()))
+                for csym in c.symbols():
+                    s1.__dict__.setdefault("nonneg_facts", {}).setdefault(csym, []).append(c - 1)
+                s1.__dict__.setdefault("nonneg_facts", {}).setdefault(rn, []).append(r)
                 s1.sym_info["divmod"] = "1"
                 # monotonicity of multiplication by a non-negative factor: n >= 0 => q >= 0 and q*c >= 0
                 s1.events.append(("divmod", self.where(node), n, c, q, r))
                 if s1.entails(ge(n, 0)):
-                    s1.add(ge(q, 0))
+                    s1.nonneg(qn, q)
                     s1.add(ge(q * c, 0))
                 res.extend(self.val(s1, TupleV([IntV(q), IntV(r)])))
                 return res
@@ -1381,6 +1470,8 @@ class Interp:
             return self.val(st, NONE)
         if name.startswith("exc:"):
             return self.val(st, ExtV(name))
+        if name in ("object.__init__", "object.__init_subclass__", "object.__setattr__"):
+            return self.val(st, NONE)
         if name in ("progressbar.progressbar",):
             return self.val(st, args[0])
         # anything else external: opaque result, recorded
@@ -1411,6 +1502,13 @@ class Interp:
                                      lambda v, s3: [Out("val", s3, acc + [v])])
                 outs = self.bind(outs, step)
             return self.bind(outs, lambda acc, s2: self.val(s2, s2.new_list(acc)))
+        if short == "round" and len(args) == 1 and isinstance(args[0], RatioV):
+            r = args[0]
+            k = st.new_sym("round", f"round(({r.num!r}) / {r.den})")
+            # |k - num/den| <= 1/2
+            st.add(le(2 * r.den * k, 2 * r.num + r.den))
+            st.add(ge(2 * r.den * k, 2 * r.num - r.den))
+            return self.val(st, IntV(k))
         if short == "round" and args:
             if isinstance(args[0], IntV):
                 return self.val(st, args[0])
@@ -1438,8 +1536,10 @@ class Interp:
                 return {"int", "Number", "object"}
             if isinstance(v, BoolV):
                 return {"bool", "int", "Number", "object"}
-            if isinstance(v, FloatV):
+            if isinstance(v, (FloatV, RatioV)):
                 return {"float", "Number", "object"}
+            if isinstance(v, StubV):
+                return {v.tag, "object"}
             if isinstance(v, NoneV):
                 return {"NoneType", "object"}
             if isinstance(v, SeqV):
@@ -1558,6 +1658,8 @@ class Interp:
                 if attr == "keys":
                     return self.val(st, TupleV([self._key_value(k) for k in d], True))
                 return self.val(st, TupleV([TupleV([self._key_value(k), v]) for k, v in d.items()], True))
+        if isinstance(recv, StubV) and attr in recv.methods:
+            return recv.methods[attr](self, args, kwargs, st, node)
         if isinstance(recv, _FileV) and attr == "write" and len(args) == 1:
             a = args[0]
             if isinstance(a, BufV):
@@ -2140,8 +2242,9 @@ class LoopSpec:
             s1 = st.clone()
             if s1.add(gt(hi, lo)):
                 i = s1.new_sym(tnames[0] + "@iter" if tnames else "i@iter", "loop index of an arbitrary iteration")
-                s1.add(ge(i, lo))
-                s1.add(le(i, hi - 1))
+                iname = next(iter(i.symbols()))
+                s1.nonneg(iname, i - lo)
+                s1.nonneg(iname, hi - 1 - i)
                 s1.trace.append(("loop", "for-arbitrary"))
                 for v in modified:
                     if v in s1.env and v not in tnames:
